@@ -66,6 +66,15 @@ def scenarios(tier, rng):
                              [{"ops": [{"op": "new"}, {"op": "solve", "k": 15}, {"op": "wait"}, {"op": "list", "dir": "@A"}]},
                               {"ops": [{"op": "list", "dir": "@A"}, restore_op(full), {"op": "solve", "k": 3},
                                        {"op": "wait"}, {"op": "list", "dir": "@A"}]}]))
+    # another solver (restore(), or a second instance loading the latest step) is attached to the directory while the
+    # writer's final asynchronous save is still in flight (file system slowed down; no wait in between): the writer's
+    # pending step must still be committed with its own content
+    for kind, pname, how in (("VI", "forest", "restore"), ("PI", "tabular", "load"), ("RVI", "forest", "load")):
+        pspec, full = P[pname]
+        second = restore_op(full) if how == "restore" else {"op": "load", "dir": "@A"}
+        out.append(base_scenario(f"{kind}-{pname}-{how}-while-save-in-flight", kind, pname, pspec, full, 1, 3, True,
+                                 [{"ops": [{"op": "new"}, {"op": "solve", "k": 5}, {"op": "list", "dir": "@A"}, second,
+                                           {"op": "wait"}, {"op": "list", "dir": "@A"}]}], fs_delay_us=150000))
     # the listed finding: restore an OLDER explicit step into the same directory, then one more iteration
     pspec, full = P["forest"]
     for kind in ("VI", "PI"):
